@@ -330,6 +330,28 @@ impl VmessBody {
         out.extend(std::iter::repeat(0x99u8).take(padding));
     }
 
+    /// A chunk whose size field is well formed for this position of the stream (masked / sealed as the options say) but
+    /// declares `total(padding)` bytes behind it, followed by `filler` bytes of anything. `total` gets the padding length
+    /// drawn for this chunk. Returns (bytes, padding).
+    pub fn malformed_chunk(&mut self, total: impl Fn(usize) -> usize, filler: usize) -> (Vec<u8>, usize) {
+        let mut out = Vec::new();
+        let padding = if self.option & OPT_GLOBAL_PADDING != 0 { (self.next_u16() % 64) as usize } else { 0 };
+        let t = total(padding);
+        if self.option & OPT_AUTH_LEN != 0 {
+            let lk = kdf16(&self.len_key, &[b"auth_len"]);
+            let n = count_nonce(self.len_count, &self.len_iv);
+            self.len_count = self.len_count.wrapping_add(1);
+            out.extend_from_slice(&body_seal(self.security, &lk, &n, &((t as u16).wrapping_sub(16)).to_be_bytes()));
+        } else if self.option & OPT_CHUNK_MASKING != 0 {
+            let mask = self.next_u16();
+            out.extend_from_slice(&(mask ^ t as u16).to_be_bytes());
+        } else {
+            out.extend_from_slice(&(t as u16).to_be_bytes());
+        }
+        out.extend((0..filler).map(|i| (i * 31 + 7) as u8));
+        (out, padding)
+    }
+
     /// Open as many whole chunks as `wire` holds; returns units, failure offset, leftover bytes.
     pub fn open_all(&mut self, wire: &[u8], base_off: usize) -> (Vec<VUnit>, Option<usize>, usize) {
         let mut units = Vec::new();
